@@ -25,6 +25,7 @@ while i < len(args):
     repo = args[i]; i += 1
 
 env = dict(os.environ, GOFLAGS="-mod=mod -trimpath", GOPROXY="off", GOSUMDB="off", GOTOOLCHAIN="local")
+MODULE = "github.com/tychoish/fun"
 base = json.load(open("/root/.vp/BASELINE.json"))
 stable = set(base["stable_pass"])
 passed, failed, seen_pkgs = set(), set(), set()
@@ -48,6 +49,9 @@ for r in range(runs):
     missing = sorted(t for t in stable if t.split("::")[0] in seen_pkgs and t not in passed)
     if not missing:
         break
+    # the next run repeats only the packages that still miss a pass
+    again = sorted({t.split("::")[0] for t in missing})
+    pkgs = ["./" + a[len(MODULE):].lstrip("/") if a != MODULE else "." for a in again]
 sel = [t for t in stable if t.split("::")[0] in seen_pkgs]
 missing = sorted(t for t in sel if t not in passed)
 print("baseline: %d stable tests in %d packages, %d passed, %d not passed; %d other failures (flaky list or new)" % (
